@@ -246,9 +246,16 @@ func rewriteMapRanges(name string, src []byte, names []string) ([]byte, bool, er
 	if err != nil {
 		return nil, false, err
 	}
-	want := map[string]bool{}
+	// a name is an identifier or a selector as written in the source ("m", "x.m");
+	// the prefix "str:" selects KeysStr (keys ordered by their printed form) for
+	// key types that are not ordered (pointers with a String method)
+	want := map[string]string{}
 	for _, n := range names {
-		want[n] = true
+		if strings.HasPrefix(n, "str:") {
+			want[strings.TrimPrefix(n, "str:")] = "KeysStr"
+		} else {
+			want[n] = "Keys"
+		}
 	}
 	type edit struct {
 		start, end int
@@ -260,18 +267,25 @@ func rewriteMapRanges(name string, src []byte, names []string) ([]byte, bool, er
 		if !ok || rs.Tok != token.DEFINE {
 			return true
 		}
-		x, ok := rs.X.(*ast.Ident)
-		if !ok || !want[x.Name] {
+		xs := string(src[fset.Position(rs.X.Pos()).Offset:fset.Position(rs.X.End()).Offset])
+		fn, ok := want[xs]
+		if !ok {
 			return true
 		}
 		k, ok1 := rs.Key.(*ast.Ident)
-		v, ok2 := rs.Value.(*ast.Ident)
-		if !ok1 || !ok2 || k.Name == "_" {
+		if !ok1 || k.Name == "_" {
 			return true
 		}
 		start := fset.Position(rs.For).Offset
 		end := fset.Position(rs.Body.Lbrace).Offset + 1
-		text := fmt.Sprintf("for _, %s := range vrange.Keys(%s) { %s := %s[%s]; _ = %s;", k.Name, x.Name, v.Name, x.Name, k.Name, v.Name)
+		text := fmt.Sprintf("for _, %s := range vrange.%s(%s) {", k.Name, fn, xs)
+		if rs.Value != nil {
+			v, ok2 := rs.Value.(*ast.Ident)
+			if !ok2 {
+				return true
+			}
+			text += fmt.Sprintf(" %s := %s[%s]; _ = %s;", v.Name, xs, k.Name, v.Name)
+		}
 		edits = append(edits, edit{start, end, text})
 		return true
 	})
